@@ -80,10 +80,9 @@ LEGS = [
     Leg("c03.lex", gen_lex, nontrivial=nontrivial, skip_model=SKIP, shrink=shrink_bytes,
         describe=lambda c: bytes.fromhex(c.split(" ")[0]).decode("utf8", "replace")[:300] if c[0] != "-" else ""),
 ]
-# numeral sub-part (checks/c03_number.py, built by a separate agent) is folded in once its findings file is merged
-if os.environ.get("VERIF_C03_NUMBER", "0") == "1":
-    from c03_number import LEGS_NUMBER
-    LEGS += LEGS_NUMBER
+# numeral sub-part (checks/c03_number.py)
+from c03_number import LEGS_NUMBER, TRUSTED_NUMBER, ASSUMPTIONS_NUMBER
+LEGS += LEGS_NUMBER
 
 TRUSTED = vlib.TRUSTED_COMMON + [
     "oracle: rune count of GBK-decoded string literals (Section variable gbk_runes); cases needing it are skipped",
@@ -93,4 +92,5 @@ TRUSTED = vlib.TRUSTED_COMMON + [
 
 
 def main(tier, seed):
-    return vlib.standard_main("C03", LEGS, tier, seed, trusted=TRUSTED, ties=("TieLexer", "TieParser"))
+    return vlib.standard_main("C03", LEGS, tier, seed, trusted=TRUSTED + TRUSTED_NUMBER, assumptions=ASSUMPTIONS_NUMBER,
+                              ties=("TieLexer", "TieParser"))
